@@ -4,7 +4,7 @@ verus! {
 //@ include prelude/base.rs
 //@ include prelude/std_assumed.rs
 //@ shims config
-//@ broadcast vax::vax_group wrap_group axiom_vec_len_bound
+//@ broadcast vax::vax_group wrap_group axiom_vec_len_bound lemma_proj_push
 pub type LineSections<'a, S> = Vec<(S, &'a str)>;
 //@ type src/config.rs INLINE_SYMBOL_WIDTH_1
 //@ type src/wrapping.rs WrapConfig keep=left_symbol,right_symbol,right_prefix_symbol,use_wrap_right_permille,max_lines noderive
@@ -167,6 +167,83 @@ pub fn verif_str_from<'a>(s: &'a str, n: usize, Ghost(g): Ghost<Seq<(usize, usiz
 //@rewrite <<<for &(item_len, item_width) in graphemes.iter() {>>> => <<<let ghost mut gk: int = 0; let ghost wl0: int = width_left as int; for gi in it: graphemes.iter() { let (item_len, item_width) = *gi;>>>
 //@rewrite <<<&text[..byte_split_pos]>>> => <<<verif_str_to(text, byte_split_pos, Ghost(graphemes@), Ghost(gk))>>>
 //@rewrite <<<&text[byte_split_pos..]>>> => <<<verif_str_from(text, byte_split_pos, Ghost(graphemes@), Ghost(gk))>>>
+
+// ---------------------------------------------------------------- wrap_minusplus_block: re-alignment of the rows after wrapping
+/// the row indices of the left / right panel named by an alignment, in order
+pub open spec fn proj_l(al: Seq<(Option<usize>, Option<usize>)>) -> Seq<int>
+    decreases al.len()
+{
+    if al.len() == 0 { Seq::empty() } else {
+        match al.last().0 { Some(i) => proj_l(al.drop_last()).push(i as int), None => proj_l(al.drop_last()) }
+    }
+}
+pub open spec fn proj_r(al: Seq<(Option<usize>, Option<usize>)>) -> Seq<int>
+    decreases al.len()
+{
+    if al.len() == 0 { Seq::empty() } else {
+        match al.last().1 { Some(i) => proj_r(al.drop_last()).push(i as int), None => proj_r(al.drop_last()) }
+    }
+}
+pub broadcast proof fn lemma_proj_push(al: Seq<(Option<usize>, Option<usize>)>, x: (Option<usize>, Option<usize>))
+    ensures #![trigger proj_l(al.push(x))] #![trigger proj_r(al.push(x))]
+        proj_l(al.push(x)) == (match x.0 { Some(i) => proj_l(al).push(i as int), None => proj_l(al) }),
+        proj_r(al.push(x)) == (match x.1 { Some(i) => proj_r(al).push(i as int), None => proj_r(al) }),
+{ assert(al.push(x).drop_last() =~= al); }
+/// the integers a, a+1, .., b-1
+pub open spec fn range(a: int, b: int) -> Seq<int> { Seq::new((if b >= a { b - a } else { 0 }) as nat, |k: int| a + k) }
+/// rows produced so far for the two panels (ghost): the macro `wrap_and_assert!` appends the rows of one line
+pub struct RowCount { pub l: Ghost<int>, pub r: Ghost<int> }
+/// (R3) `wrap_and_assert!(Left, .., m, m_expected)`: asserts that the alignment names the expected line, wraps that line
+/// and returns the range of rows it now occupies. ASSUMED (wrap_if_too_long): the range starts where the rows ended.
+#[verifier::external_body]
+pub fn verif_wrap_left(have: &usize, expected: &mut usize, rc: &mut RowCount) -> (r: (usize, usize))
+    requires *have == *old(expected),  // @C03:the.alignment.names.the.lines.of.each.side.in.order
+    ensures *final(expected) == *old(expected) + 1, r.0 == old(rc).l@, r.1 == final(rc).l@, r.0 <= r.1, final(rc).r == old(rc).r, final(rc).l@ <= isize::MAX,
+{ unimplemented!() }
+#[verifier::external_body]
+pub fn verif_wrap_right(have: &usize, expected: &mut usize, rc: &mut RowCount) -> (r: (usize, usize))
+    requires *have == *old(expected),  // @C03:the.alignment.names.the.lines.of.each.side.in.order
+    ensures *final(expected) == *old(expected) + 1, r.0 == old(rc).r@, r.1 == final(rc).r@, r.0 <= r.1, final(rc).l == old(rc).l, final(rc).r@ <= isize::MAX,
+{ unimplemented!() }
+/// (R3) `(a0..a1).zip(b0..b1)` as a vector
+#[verifier::external_body]
+pub fn verif_zip_ranges(a0: usize, a1: usize, b0: usize, b1: usize) -> (r: Vec<(usize, usize)>)
+    requires a0 <= a1, b0 <= b1,
+    ensures r@.len() == (if a1 - a0 <= b1 - b0 { a1 - a0 } else { b1 - b0 }),
+            forall|k: int| 0 <= k < r@.len() ==> #[trigger] r@[k] == ((a0 + k) as usize, (b0 + k) as usize),
+{ unimplemented!() }
+
+//@ region src/wrapping.rs wrap_minusplus_block
+//@sig pub fn realign_one_entry(minus: &Option<usize>, plus: &Option<usize>, m_expected: &mut usize, p_expected: &mut usize, new_alignment: &mut Vec<(Option<usize>, Option<usize>)>, rc: &mut RowCount) -> (r: (usize, usize))
+//@from <<<let (minus_extended, plus_extended) = match (minus, plus) {>>>
+//@until <<<if minus_extended > 0 {>>>
+//@tail (minus_extended, plus_extended)
+//@| requires !(*minus is None && *plus is None),  // @C03:an.alignment.entry.names.at.least.one.side
+//@|          *minus matches Some(m) ==> m == *old(m_expected), *plus matches Some(p) ==> p == *old(p_expected),  // @C03:alignment.indices.are.consecutive.assumed
+//@|          0 <= old(rc).l@ <= isize::MAX, 0 <= old(rc).r@ <= isize::MAX,
+//@| ensures proj_l(final(new_alignment)@) =~= proj_l(old(new_alignment)@) + range(old(rc).l@, final(rc).l@),  // @C07:after.wrapping.every.row.of.the.left.panel.is.named.exactly.once.in.order
+//@|         proj_r(final(new_alignment)@) =~= proj_r(old(new_alignment)@) + range(old(rc).r@, final(rc).r@),  // @C07:after.wrapping.every.row.of.the.right.panel.is.named.exactly.once.in.order
+//@|         r.0 == final(rc).l@ - old(rc).l@, r.1 == final(rc).r@ - old(rc).r@,
+//@before <<<let (minus_extended, plus_extended) = match (minus, plus) {>>>| let ghost al0 = new_alignment@; let ghost l0 = rc.l@; let ghost r0 = rc.r@; proof { assert(range(l0, l0) =~= Seq::<int>::empty()); assert(range(r0, r0) =~= Seq::<int>::empty()); }
+//@loop 1| invariant minus_start == l0, extended_to == rc.l@, rc.r@ == r0, minus_start <= i <= extended_to,
+//@loop 1|     proj_l(new_alignment@) =~= proj_l(al0) + range(l0, i as int), proj_r(new_alignment@) =~= proj_r(al0),
+//@loop 2| invariant plus_start == r0, extended_to == rc.r@, rc.l@ == l0, plus_start <= i <= extended_to,
+//@loop 2|     proj_r(new_alignment@) =~= proj_r(al0) + range(r0, i as int), proj_l(new_alignment@) =~= proj_l(al0),
+//@loop 3| invariant minus_start == l0, plus_start == r0, m_extended_to == rc.l@, p_extended_to == rc.r@, l0 <= rc.l@ <= isize::MAX, r0 <= rc.r@ <= isize::MAX,
+//@loop 3|     it3.seq().len() == (if m_extended_to - minus_start <= p_extended_to - plus_start { m_extended_to - minus_start } else { p_extended_to - plus_start }),
+//@loop 3|     forall|k: int| 0 <= k < it3.seq().len() ==> #[trigger] it3.seq()[k] == ((minus_start + k) as usize, (plus_start + k) as usize),
+//@loop 3|     proj_l(new_alignment@) =~= proj_l(al0) + range(l0, l0 + it3.index@), proj_r(new_alignment@) =~= proj_r(al0) + range(r0, r0 + it3.index@),
+//@loop 4| invariant l0 <= rc.l@, r0 <= rc.r@, minus_start == l0, m_extended_to == rc.l@, p_extended_to == rc.r@, plus_start == r0, l0 + (p_extended_to - plus_start) <= m <= m_extended_to,
+//@loop 4|     proj_l(new_alignment@) =~= proj_l(al0) + range(l0, m as int), proj_r(new_alignment@) =~= proj_r(al0) + range(r0, rc.r@),
+//@loop 5| invariant l0 <= rc.l@, r0 <= rc.r@, minus_start == l0, m_extended_to == rc.l@, p_extended_to == rc.r@, plus_start == r0, r0 + (m_extended_to - minus_start) <= p <= p_extended_to,
+//@loop 5|     proj_r(new_alignment@) =~= proj_r(al0) + range(r0, p as int), proj_l(new_alignment@) =~= proj_l(al0) + range(l0, rc.l@),
+//@afterstmt <<<new_alignment.push((Some(m), None));>>>| proof { assert(range(l0, m as int).push(m as int) =~= range(l0, m + 1)); }
+//@afterstmt <<<new_alignment.push((None, Some(p)));>>>| proof { assert(range(r0, p as int).push(p as int) =~= range(r0, p + 1)); }
+//@rewrite <<<wrap_and_assert!(Left, "[*l*] (-)", m, m_expected)>>> => <<<verif_wrap_left(m, m_expected, rc)>>>
+//@rewrite <<<wrap_and_assert!(Right, "(-) [*r*]", p, p_expected)>>> => <<<verif_wrap_right(p, p_expected, rc)>>>
+//@rewrite <<<wrap_and_assert!(Left, "[*l*] (r)", m, m_expected)>>> => <<<verif_wrap_left(m, m_expected, rc)>>>
+//@rewrite <<<wrap_and_assert!(Right, "(l) [*r*]", p, p_expected)>>> => <<<verif_wrap_right(p, p_expected, rc)>>>
+//@rewrite <<<(minus_start..m_extended_to).zip(plus_start..p_extended_to)>>> => <<<it3: verif_zip_ranges(minus_start, m_extended_to, plus_start, p_extended_to)>>>
 
 } // verus!
 fn main() {}
